@@ -666,6 +666,55 @@ def opCliMain (req : Json) : Except String Json := do
     pure (okJson (.num (exitStatus .matchProducts (frontOutcome ok work))))
   else throw "bad tool"
 
+/-- The library call a recording front end makes for what argparse left in the namespace (`null`: usage error). -/
+def opCliCall (req : Json) : Except String Json := do
+  let a ← field req "args"
+  let tool ← toStr (← field req "tool")
+  let oStr : Option Str → Json := fun | none => .null | some s => ofStr s
+  let oList : Option (List Str) → Json := fun | none => .null | some l => .arr (l.map ofStr).toArray
+  let intOf (j : Json) : Except String Int := match j.getInt? with | .ok i => pure i | .error _ => throw "expected int"
+  if tool = lit "match_products" then
+    let c := matchCall { link := ← toStr (← field a "link"), paths := ← optListOf (← field a "paths"),
+                         exclude := ← optListOf (← field a "exclude"), lstrip := ← optListOf (← field a "lstrip_paths") }
+    pure (okJson (Json.mkObj [("link", ofStr c.linkFrom), ("paths", oList c.paths), ("exclude_patterns", oList c.exclude),
+                              ("lstrip_paths", oList c.lstrip)]))
+  else if tool = lit "verify" then
+    let va : VerifyArgs := { argparseOk := true, layoutKeys := ← optListOf (← field a "layout_keys"),
+                             gpg := ← optListOf (← field a "gpg"), verificationKeys := ← optListOf (← field a "verification_keys") }
+    match verifyCall { args := va, layout := ← toStr (← field a "layout"), linkDir := ← toStr (← field a "link_dir"),
+                       inspectTimeout := ← intOf (← field a "inspect_timeout") } with
+    | none => pure (okJson .null)
+    | some c => pure (okJson (Json.mkObj [("layout", ofStr c.layoutFrom), ("link_dir_path", ofStr c.linkDir),
+        ("inspect_timeout", .num c.inspectTimeout),
+        ("key_options", .arr (c.keyOptions.map (fun (k, l) => Json.arr #[ofStr k, .arr (l.map ofStr).toArray])).toArray)]))
+  else
+    let ns : RecNs := {
+      stepName := ← toStr (← field a "step_name"), materials := ← optListOf (fieldD a "materials" .null),
+      products := ← optListOf (fieldD a "products" .null), linkCmd := ← strList (fieldD a "link_cmd" (.arr #[])),
+      noCommand := ← boolOf (fieldD a "no_command" (.bool false)), recordStreams := ← boolOf (fieldD a "record_streams" (.bool false)),
+      keys := ← keyArgsOf a, gpgHome := ← optStrOf (fieldD a "gpg_home" .null),
+      exclude := ← optListOf (fieldD a "exclude_patterns" .null), basePath := ← optStrOf (fieldD a "base_path" .null),
+      lstrip := ← optListOf (fieldD a "lstrip_paths" .null), metadataDirectory := ← optStrOf (fieldD a "metadata_directory" .null),
+      useDsse := ← boolOf (fieldD a "use_dsse" (.bool false)), runTimeout := ← intOf (fieldD a "run_timeout" (.num 0)) }
+    let call ← if tool = lit "run" then pure (runCall ns) else if tool = lit "record_start" then pure (recordStartCall ns)
+               else if tool = lit "record_stop" then pure (recordStopCall ns) else throw "bad tool"
+    match call with
+    | none => pure (okJson .null)
+    | some c =>
+      let opt {α} (f : α → Json) : Option α → List (String × Json) → String → List (String × Json) :=
+        fun v acc k => match v with | none => acc | some x => (k, f x) :: acc
+      let base : List (String × Json) := [("name", ofStr c.name), ("signing_key", oStr c.signingKeyFrom), ("gpg_keyid", oStr c.gpgKeyid),
+        ("gpg_use_default", .bool c.gpgUseDefault), ("gpg_home", oStr c.gpgHome), ("exclude_patterns", oList c.exclude),
+        ("base_path", oStr c.basePath), ("lstrip_paths", oList c.lstrip), ("signer", oStr c.signerFrom)]
+      let l := opt oList c.materials base "material_list"
+      let l := opt oList c.products l "product_list"
+      let l := opt (fun (x : List Str) => Json.arr (x.map ofStr).toArray) c.command l "link_cmd_args"
+      let l := opt Json.bool c.recordStreams l "record_streams"
+      let l := opt oStr c.metadataDirectory l "metadata_directory"
+      let l := opt Json.bool c.useDsse l "use_dsse"
+      let l := opt (fun (i : Int) => Json.num i) c.timeout l "timeout"
+      pure (okJson (Json.mkObj l))
+
 /-- `in-toto-sign --verify` with several keys: the exit status given, per key in the order passed, what its check does. -/
 def opSignVerifyMany (req : Json) : Except String Json := do
   let results ← (← arr (← field req "results")).mapM outcomeOf
@@ -693,6 +742,7 @@ def dispatch (op : String) (req : Json) : Except String Json :=
   | "stop_crash" => opStopCrash req
   | "cli_status" => opCliStatus req
   | "cli_main" => opCliMain req
+  | "cli_call" => opCliCall req
   | "record_stop" => opRecordStop req
   | "in_toto_run" => opInTotoRun req
   | "sign_ops" => opSignOps req
